@@ -6,6 +6,8 @@ def dispatch (line : String) : String :=
   | "gen" :: args => handleGen args
   | "call" :: args => handleCall args
   | "disp" :: args => handleDisp args
+  | "sgen" :: args => handleSGen args
+  | "scall" :: args => handleSCall args
   | "getlist" :: args => handleGetList args
   | "fill" :: args => handleFill args
   | "charptr" :: args => handleCharPtr args
